@@ -30,6 +30,7 @@ def run(repo, run, tier):
     from .c05 import nan_rejection
     nan_rejection(repo, run, rule_id="C12.8")
     no_swallowing(repo, run)
+    handler_cannot_fail(repo, run, m)
 
 
 def _hnames(h):
@@ -266,3 +267,38 @@ def no_swallowing(repo, run):
                         run.report("C12.9", rel, h, "`except %s` in %s does not re-raise: an exception raised by the user's right-hand side (Jacobian, event function) inside this "
                                                     "`try` is absorbed here, the step is recomputed and integrate() can return normally -- the failure never reaches the "
                                                     "caller as FailedIntegration with its cause" % ("/".join(names), q), text="except %s swallows" % "/".join(names))
+
+
+# ------------------------------------------------------------------------------------------------
+def handler_cannot_fail(repo, run, m):
+    """'the call raises the integration-failure error carrying the original cause ... and the status reports the failure' for EVERY exception the user code
+    can raise.  Statements of a handler that run before the status store and the raise must therefore not depend on the payload of the caught object:
+    `e.args[0]` raises IndexError for an exception built without arguments (a bare `assert`, `raise NotImplementedError`, MemoryError()), `e.args[k]`,
+    `e.message`, unpacking `a, b = e.args` likewise -- the handler then dies with THAT error, nothing is recorded and the cause is lost."""
+    rid = run.rule("C12.10", "the failure handlers of integrate() cannot themselves fail on the caught object: before the status store / raise no handler indexes or "
+                             "unpacks the exception's payload (e.args[k], e.message, tuple-unpacking of e.args), whose shape is chosen by the user's code", floor=1)
+    for h in m.try_.handlers:
+        name = h.name
+        if name is None:
+            run.judged(rid, "handler %s binds no name" % _hnames(h), nontrivial=False)
+            continue
+        bad = []
+        for x in ast.walk(h):
+            if isinstance(x, ast.Subscript) and isinstance(x.ctx, ast.Load):
+                root = x.value
+                while isinstance(root, (ast.Attribute, ast.Subscript)):
+                    root = root.value
+                if isinstance(root, ast.Name) and root.id == name:
+                    bad.append((x, "indexes the payload of the caught exception"))
+            if isinstance(x, ast.Attribute) and isinstance(x.value, ast.Name) and x.value.id == name and isinstance(x.ctx, ast.Load) and \
+                    x.attr not in ("args", "__cause__", "__context__", "__traceback__", "__class__", "with_traceback", "add_note", "__notes__", "__dict__"):
+                bad.append((x, "reads attribute `%s`, which an arbitrary exception need not have" % x.attr))
+            if isinstance(x, ast.Assign) and isinstance(x.targets[0], (ast.Tuple, ast.List)) and any(
+                    isinstance(n, ast.Name) and n.id == name for n in ast.walk(x.value)) and not isinstance(x.value, (ast.Tuple, ast.List)):
+                bad.append((x, "unpacks the payload of the caught exception into a fixed number of names"))
+        run.judged(rid, "handler %s as %s: %s" % (_hnames(h), name, "independent of the payload" if not bad else [src(b)[:40] for b, _ in bad]), ok=not bad)
+        for x, why in bad:
+            run.report("C12.10", DS, x, "the handler for %s %s (`%s`): for an exception raised without arguments (bare assert, `raise NotImplementedError`, a user exception "
+                       "class with its own fields) the handler itself raises (IndexError / AttributeError / ValueError) before the status is stored and before the "
+                       "failure is wrapped: integrate() then raises that secondary error, the status still describes the previous call and the cause is lost" % (
+                           _hnames(h), why, src(x)[:60]))
